@@ -1,2 +1,284 @@
-import FtModel.History
-theorem C02_dummy : 1 + 1 = 2 := rfl
+/-
+  C02 — undo/redo follow a never-forgetting linear timeline.
+
+  "For any interleaving of edits, undo() and redo(), the tracks state always equals the state
+   predicted by a linear timeline of visited states: undo steps one state back, redo one state
+   forward, and a new edit made after some undos keeps the undone steps on the timeline
+   (appended in reverse) before adding the new state, so every state ever visited stays
+   reachable by undoing far enough. undo()/redo() return False exactly when there is nothing
+   to step to and then change nothing, and every top-level user action is exactly one step
+   however many primitive edits it contains."
+
+  Abstract part (`FtModel.History`, any state type `σ`, action type `α`, `inv : σ → α → σ × α`):
+  the concrete system is `(Hist α, current state)` driven by `Hist.add / undoStep / redoStep`
+  (`Hist.stepC`, `Hist.runC`), the specification is `Timeline.edit / undo / redo`
+  (`Hist.stepA`, `Hist.runA`).  Assumptions (`Hist.Laws inv Rec E`): `E` is an equivalence,
+  `Rec a s t` ("`a` records a step `s ⟶ t`") is `E`-invariant, and the inverse law
+  `Rec a s t → E t' t → E (inv t' a).1 s ∧ Rec (inv t' a).2 t s` — this is exactly what C01
+  provides.  A run is admissible (`Hist.ValidRun`) when every edit `edit a s'` satisfies
+  `Rec a cur s'`.  `Hist.Refines` is the refinement invariant (ghost zipper, see
+  `FtProofs/HistoryLemmas.lean`).
+
+  Session part (`FtModel.Session`): `C02_one_step*` are unconditional facts about `St.step`;
+  `C02_session` instantiates the abstract theorem with `σ := St`, `α := ActRec`,
+  `inv := St.invTotal` under the hypothesis `St.C01Obligation Rec E` (THE C01 OBLIGATION) and the
+  per-step side conditions `St.SessValid` (accepted edits produce `Rec`-records = C01 for the
+  user actions; refused edits / queries leave the state `E`-unchanged = C11).
+-/
+import FtProofs.HistoryLemmas
+open Ft Ft.Hist Ft.St
+
+/-! ### refinement -/
+
+/-- One call: from any pair related by the refinement invariant, the concrete call and the
+    timeline call stay related and return the same Boolean. -/
+theorem C02_refines_step {α σ : Type} {inv : σ → α → σ × α} {Rec : α → σ → σ → Prop}
+    {E : σ → σ → Prop} (L : Laws inv Rec E) {c : Hist α × σ} {t : Timeline σ}
+    (hr : Refines Rec E c t) (op : HOp α σ) (hv : OpValid Rec c op) :
+    Refines Rec E (stepC inv c op).1 (stepA t op).1 ∧ (stepC inv c op).2 = (stepA t op).2 :=
+  hr.step L op hv
+
+/-- Every admissible interleaving of edits, `undo()` and `redo()` from a fresh history: all
+    returned Booleans agree with the timeline's, the current state is (`E`-)equal to the timeline
+    state under the cursor, `|states| = |undo_stack| + 1` and `cursor = |undo_stack| − |redo_stack|`;
+    and the refinement invariant holds at the end (so the statement composes). -/
+theorem C02_refines {α σ : Type} {inv : σ → α → σ × α} {Rec : α → σ → σ → Prop}
+    {E : σ → σ → Prop} (L : Laws inv Rec E) (s0 : σ) (ops : List (HOp α σ))
+    (hv : ValidRun Rec inv (({} : Hist α), s0) ops) :
+    (runC inv (({} : Hist α), s0) ops).2 = (runA ⟨[s0], 0⟩ ops).2 ∧
+    (∃ x, (runA ⟨[s0], 0⟩ ops).1.states[(runA ⟨[s0], 0⟩ ops).1.cur]? = some x ∧
+          E (runC inv (({} : Hist α), s0) ops).1.2 x) ∧
+    (runA ⟨[s0], 0⟩ ops).1.states.length = (runC inv (({} : Hist α), s0) ops).1.1.undo.length + 1 ∧
+    (runA ⟨[s0], 0⟩ ops).1.cur + (runC inv (({} : Hist α), s0) ops).1.1.redo.length
+      = (runC inv (({} : Hist α), s0) ops).1.1.undo.length ∧
+    Refines Rec E (runC inv (({} : Hist α), s0) ops).1 (runA ⟨[s0], 0⟩ ops).1 := by
+  obtain ⟨h1, h2⟩ := Refines.run L ops (Refines.init Rec L.refl s0) hv
+  exact ⟨h2, h1.current, h1.sizes.1, h1.sizes.2, h1⟩
+
+/-- The entries `undo()` / `redo()` invert are records of the step into / out of the current
+    state, i.e. C01's law is applied exactly where it is applicable. -/
+theorem C02_inverts_at_post {α σ : Type} {Rec : α → σ → σ → Prop} {E : σ → σ → Prop}
+    {c : Hist α × σ} {t : Timeline σ} (hr : Refines Rec E c t) :
+    (c.1.redo.length < c.1.undo.length →
+      ∃ a y x, c.1.undo[c.1.undo.length - c.1.redo.length - 1]? = some a ∧ Rec a y x ∧ E c.2 x ∧
+        t.states[t.cur - 1]? = some y ∧ 0 < t.cur) ∧
+    (∀ r, c.1.redo.getLast? = some r →
+      ∃ z x, Rec r z x ∧ E c.2 x ∧ t.states[t.cur + 1]? = some z) :=
+  ⟨hr.undo_entry, hr.redo_entry⟩
+
+/-- The abstraction function of the design: entry `i` of the undo stack is a record of the step
+    from timeline state `i` to timeline state `i+1` (so `states = pre(U₀) :: map post U`). -/
+theorem C02_abstraction {α σ : Type} {Rec : α → σ → σ → Prop} {E : σ → σ → Prop}
+    {c : Hist α × σ} {t : Timeline σ} (hr : Refines Rec E c t) (i : Nat) (hi : i < c.1.undo.length) :
+    ∃ s s', t.states[i]? = some s ∧ t.states[i + 1]? = some s' ∧ Rec c.1.undo[i] s s' :=
+  hr.undo_records i hi
+
+/-! non-vacuity: states are numbers, an action records (from, to), its inverse jumps back -/
+namespace C02Ex
+def inv (_ : Nat) (a : Nat × Nat) : Nat × (Nat × Nat) := (a.1, (a.2, a.1))
+def Rec (a : Nat × Nat) (s t : Nat) : Prop := a = (s, t)
+theorem laws : Laws inv Rec Eq :=
+  ⟨fun _ => rfl, fun h => h.symm, fun h k => h.trans k,
+   fun h hs ht => by subst hs; subst ht; exact h,
+   fun h he => by subst he; unfold Rec at h; subst h; exact ⟨rfl, rfl⟩⟩
+/-- two edits, two undos, a new edit in the middle of the timeline, undo, redo, redo(nothing) -/
+def ops : List (HOp (Nat × Nat) Nat) :=
+  [.edit (0, 1) 1, .edit (1, 2) 2, .undo, .undo, .undo, .edit (0, 3) 3, .undo, .redo, .redo]
+theorem valid : ValidRun Rec inv (({} : Hist (Nat × Nat)), 0) ops := by
+  refine ⟨rfl, rfl, trivial, trivial, trivial, rfl, trivial, trivial, trivial, trivial⟩
+end C02Ex
+
+example : (runA ⟨[0], 0⟩ C02Ex.ops).1.states = [0, 1, 2, 1, 0, 3] ∧ (runA ⟨[0], 0⟩ C02Ex.ops).1.cur = 5 ∧
+    (runC C02Ex.inv (({} : Hist (Nat × Nat)), 0) C02Ex.ops).1.2 = 3 ∧
+    (runC C02Ex.inv (({} : Hist (Nat × Nat)), 0) C02Ex.ops).2
+      = [true, true, true, true, false, true, true, true, false] := by decide
+example := C02_refines C02Ex.laws 0 C02Ex.ops C02Ex.valid
+#print axioms C02_refines_step
+#print axioms C02_refines
+#print axioms C02_inverts_at_post
+#print axioms C02_abstraction
+
+/-! ### `False` exactly when there is nothing to step to, and then nothing changes -/
+
+theorem C02_false_iff {α σ : Type} {inv : σ → α → σ × α} {Rec : α → σ → σ → Prop}
+    {E : σ → σ → Prop} {c : Hist α × σ} {t : Timeline σ} (hr : Refines Rec E c t) :
+    ((c.1.undoStep inv c.2).2.2 = false ↔ t.cur = 0) ∧
+    ((c.1.undoStep inv c.2).2.2 = false → c.1.undoStep inv c.2 = (c.1, c.2, false)) ∧
+    ((c.1.redoStep inv c.2).2.2 = false ↔ t.cur + 1 = t.states.length) ∧
+    ((c.1.redoStep inv c.2).2.2 = false → c.1.redoStep inv c.2 = (c.1, c.2, false)) := by
+  obtain ⟨h1, h2⟩ := hr.sizes
+  refine ⟨?_, undoStep_false_unchanged inv c.1 c.2, ?_, redoStep_false_unchanged inv c.1 c.2⟩
+  · rw [undoStep_false_iff]; omega
+  · rw [redoStep_false_iff, ← List.length_eq_zero_iff]; omega
+
+/-- the same along runs from a fresh history -/
+theorem C02_false_iff_run {α σ : Type} {inv : σ → α → σ × α} {Rec : α → σ → σ → Prop}
+    {E : σ → σ → Prop} (L : Laws inv Rec E) (s0 : σ) (ops : List (HOp α σ))
+    (hv : ValidRun Rec inv (({} : Hist α), s0) ops) :
+    ((stepC inv (runC inv (({} : Hist α), s0) ops).1 .undo).2 = false ↔ (runA ⟨[s0], 0⟩ ops).1.cur = 0) ∧
+    ((stepC inv (runC inv (({} : Hist α), s0) ops).1 .undo).2 = false →
+      (stepC inv (runC inv (({} : Hist α), s0) ops).1 .undo).1 = (runC inv (({} : Hist α), s0) ops).1) ∧
+    ((stepC inv (runC inv (({} : Hist α), s0) ops).1 .redo).2 = false ↔
+      (runA ⟨[s0], 0⟩ ops).1.cur + 1 = (runA ⟨[s0], 0⟩ ops).1.states.length) ∧
+    ((stepC inv (runC inv (({} : Hist α), s0) ops).1 .redo).2 = false →
+      (stepC inv (runC inv (({} : Hist α), s0) ops).1 .redo).1 = (runC inv (({} : Hist α), s0) ops).1) := by
+  obtain ⟨h1, h2, h3, h4⟩ := C02_false_iff (inv := inv) (C02_refines L s0 ops hv).2.2.2.2
+  refine ⟨h1, fun h => ?_, h3, fun h => ?_⟩
+  · simp only [stepC] at h ⊢; rw [h2 h]
+  · simp only [stepC] at h ⊢; rw [h4 h]
+
+example : (stepC C02Ex.inv (runC C02Ex.inv (({} : Hist (Nat × Nat)), 0) C02Ex.ops).1 .redo).2 = false ∧
+    (stepC C02Ex.inv (runC C02Ex.inv (({} : Hist (Nat × Nat)), 0) C02Ex.ops).1 .undo).2 = true := by decide
+#print axioms C02_false_iff
+#print axioms C02_false_iff_run
+
+/-! ### nothing is ever forgotten -/
+
+/-- prefix monotonicity: whatever is done next (edits, undos, redos — admissible or not), the
+    list of visited states only grows at the end; undo/redo do not touch it -/
+theorem C02_reachable_prefix {α σ : Type} (t : Timeline σ) (ops : List (HOp α σ)) :
+    t.states <+: (runA t ops).1.states ∧ t.undo.1.states = t.states ∧ t.redo.1.states = t.states :=
+  ⟨runA_prefix ops t, stepA_undo_states t, stepA_redo_states t⟩
+
+/-- every state on the timeline is reached again by undoing (or redoing) far enough: state `i`
+    is the current state (up to `E`) after `cur − i` undos if `i ≤ cur`, after `i − cur` redos
+    otherwise.  After an edit `cur` is the last index, so undoing alone reaches everything. -/
+theorem C02_reachable {α σ : Type} {inv : σ → α → σ × α} {Rec : α → σ → σ → Prop}
+    {E : σ → σ → Prop} (L : Laws inv Rec E) {c : Hist α × σ} {t : Timeline σ}
+    (hr : Refines Rec E c t) (i : Nat) (hi : i < t.states.length) :
+    ∃ x, t.states[i]? = some x ∧
+      E (runC inv c (if i ≤ t.cur then List.replicate (t.cur - i) .undo
+                      else List.replicate (i - t.cur) .redo)).1.2 x :=
+  hr.reach L i hi
+
+/-- after an edit the cursor is at the end of the timeline -/
+theorem C02_reachable_edit_last {σ : Type} (t : Timeline σ) (s' : σ) :
+    (t.edit s').cur + 1 = (t.edit s').states.length := by
+  unfold Timeline.edit; simp; omega
+
+example : ∃ x, (runA ⟨[0], 0⟩ C02Ex.ops).1.states[2]? = some x ∧
+    (runC C02Ex.inv (runC C02Ex.inv (({} : Hist (Nat × Nat)), 0) C02Ex.ops).1
+      (List.replicate 3 .undo)).1.2 = x := ⟨2, by decide, by decide⟩
+#print axioms C02_reachable_prefix
+#print axioms C02_reachable
+#print axioms C02_reachable_edit_last
+
+/-! ### every top-level user action is exactly one step -/
+
+/-- no user action touches the history (nor the refresh log), accepted or refused, nested or not -/
+theorem C02_one_step_user (s : St) :
+    (∀ e f, (s.uAddEdge e f).1.hist = s.hist) ∧ (∀ e, (s.uDeleteEdge e).1.hist = s.hist) ∧
+    (∀ a, (s.uAddNode a).1.hist = s.hist) ∧ (∀ n px, (s.uDeleteNode n px).1.hist = s.hist) ∧
+    (∀ a b, (s.uSwap a b).1.hist = s.hist) ∧
+    (∀ v g t f, (s.uUpdateSeg v g t f).1.1.hist = s.hist) ∧
+    (∀ n at_, (s.uUpdateAttrs n at_).1.hist = s.hist) :=
+  ⟨fun e f => hist_of_ctl (ctl_uAddEdge s e f), fun e => hist_of_ctl (ctl_uDeleteEdge s e),
+   fun a => hist_of_ctl (ctl_uAddNode s a), fun n px => hist_of_ctl (ctl_uDeleteNode s n px),
+   fun a b => hist_of_ctl (ctl_uSwap s a b), fun v g t f => hist_of_ctl (ctl_uUpdateSeg s v g t f),
+   fun n at_ => hist_of_ctl (ctl_uUpdateAttrs s n at_)⟩
+
+/-- a top-level edit op is either accepted — then exactly one entry is appended after the kept
+    redo entries and the redo stack is cleared (`add_new_action`) — or refused with an error, and
+    then the history is unchanged -/
+theorem C02_one_step (s : St) (op : Op) (he : op.isTopEdit = true) :
+    ((step s op).2 = .ok ∧ ∃ recs, (step s op).1.hist.undo = s.hist.undo ++ s.hist.redo ++ [recs] ∧
+        (step s op).1.hist.redo = []) ∨
+    ((∃ e, (step s op).2 = .err e) ∧ (step s op).1.hist = s.hist) := by
+  rcases step_edit s op he with ⟨u, recs, h1, hc⟩ | ⟨e, h1, hc⟩
+  · refine .inl ⟨by rw [h1], recs, ?_, ?_⟩
+    · rw [h1]; show (u.hist.add recs).undo = _; rw [add_eq, hist_of_ctl hc]
+    · rw [h1]; show (u.hist.add recs).redo = _; rw [add_eq]
+  · exact .inr ⟨⟨e, h1⟩, hist_of_ctl hc⟩
+
+/-- … and that one entry is the complete flattened primitive list of the user action, however
+    long it is -/
+theorem C02_one_step_group (s : St) (op : Op) (he : op.isTopEdit = true) (hok : (step s op).2 = .ok) :
+    ∃ r recs, userPart s op = some r ∧ r.2 = .ok recs ∧
+      (step s op).1.hist = s.hist.add recs := by
+  obtain ⟨r, recs, h1, h2, h3⟩ := step_edit_group s op he hok
+  refine ⟨r, recs, h1, h2, ?_⟩
+  rw [h3]
+  show r.1.hist.add recs = _
+  rw [hist_of_ctl (userPart_ctl s op r h1)]
+
+/-! non-vacuity: two nodes in consecutive frames (with their masks); linking them is a composite
+    action of two primitives (relabel the target track, add the edge) = one history entry -/
+namespace C02Ex
+def s : St :=
+  { nodes := [{ id := 1, time := 0, tid := 1, lin := some 1 }, { id := 2, time := 1, tid := 2, lin := some 2 }],
+    seg := some ⟨4, [1, 0, 0, 0, 2, 0, 0, 0]⟩,
+    t2n := [(1, [1]), (2, [2])], l2n := [(1, [1]), (2, [2])], maxTid := 2, maxLin := 2 }
+end C02Ex
+
+example : (step C02Ex.s (.addEdge (1, 2) false)).2 = .ok ∧
+    (step C02Ex.s (.addEdge (1, 2) false)).1.hist.undo.map List.length = [2] ∧
+    (step (step C02Ex.s (.addEdge (1, 2) false)).1 .undo).2 = .bool true ∧
+    ((step (step (step C02Ex.s (.addEdge (1, 2) false)).1 .undo).1 (.delNode 2)).1.hist.undo.map List.length,
+     (step (step (step C02Ex.s (.addEdge (1, 2) false)).1 .undo).1 (.delNode 2)).1.hist.redo.length) = ([2, 2, 1], 0) ∧
+    (step C02Ex.s (.addEdge (2, 1) false)).2 = .err .invalid ∧
+    (step C02Ex.s (.addEdge (2, 1) false)).1.hist.undo.length = 0 := by decide
+#print axioms C02_one_step_user
+#print axioms C02_one_step
+#print axioms C02_one_step_group
+
+/-! ### the session model refines the timeline, given C01 -/
+
+/-- `St.step` refines the timeline.  Hypotheses: `hC01` — **the C01 obligation** for the record
+    relation `Rec` and the observational equivalence `E` (for `E := St.Equiv` build it with
+    `St.C01Obligation.ofEquiv` from the inverse law alone); `hv` — along the run every accepted
+    edit appended a `Rec`-record of the step it made (C01 for the user actions) and every other
+    op except undo/redo left the state `E`-unchanged (C11 for refused edits; queries).
+    Conclusion: after the run the tracks state is `E`-equal to the timeline state under the
+    cursor, the stack sizes match the abstraction, every `undo`/`redo` returned the timeline's
+    Boolean (in particular never raised), and the refinement invariant holds. -/
+theorem C02_session {Rec : ActRec → St → St → Prop} {E : St → St → Prop}
+    (hC01 : C01Obligation Rec E) (s0 : St) (h0 : s0.hist = {}) (ops : List Op)
+    (hv : SessValid Rec E s0 ops) :
+    (∃ x, (sessFinal s0 ⟨[s0], 0⟩ ops).2.states[(sessFinal s0 ⟨[s0], 0⟩ ops).2.cur]? = some x ∧
+          E (sessFinal s0 ⟨[s0], 0⟩ ops).1 x) ∧
+    (sessFinal s0 ⟨[s0], 0⟩ ops).2.states.length = (sessFinal s0 ⟨[s0], 0⟩ ops).1.hist.undo.length + 1 ∧
+    (sessFinal s0 ⟨[s0], 0⟩ ops).2.cur + (sessFinal s0 ⟨[s0], 0⟩ ops).1.hist.redo.length
+      = (sessFinal s0 ⟨[s0], 0⟩ ops).1.hist.undo.length ∧
+    SessAgree s0 ⟨[s0], 0⟩ ops ∧
+    Refines Rec E ((sessFinal s0 ⟨[s0], 0⟩ ops).1.hist, (sessFinal s0 ⟨[s0], 0⟩ ops).1)
+      (sessFinal s0 ⟨[s0], 0⟩ ops).2 := by
+  have hinit : Refines Rec E (s0.hist, s0) ⟨[s0], 0⟩ := by
+    rw [h0]; exact Refines.init Rec hC01.refl s0
+  obtain ⟨h1, h2⟩ := sess_run hC01 ops hinit hv
+  exact ⟨h1.current, h1.sizes.1, h1.sizes.2, h2, h1⟩
+
+/-- one session step, from any related pair -/
+theorem C02_session_step {Rec : ActRec → St → St → Prop} {E : St → St → Prop}
+    (hC01 : C01Obligation Rec E) {s : St} {t : Timeline St}
+    (hr : Refines Rec E (s.hist, s) t) (op : Op) (hv : SessOpOK Rec E s op) :
+    Refines Rec E ((step s op).1.hist, (step s op).1) (absStep t op (step s op)) ∧
+    (op = .undo → (step s op).2 = .bool t.undo.2) ∧ (op = .redo → (step s op).2 = .bool t.redo.2) :=
+  sess_step hC01 hr op hv
+
+/-! non-vacuity (hypotheses satisfiable): the smallest honest instance of the C01 obligation —
+    records of actions that recorded no primitive (an empty paint stroke) — on a real session.
+    Instances for the real user actions are what C01 has to supply. -/
+namespace C02Ex
+def Rec0 (a : ActRec) (s t : St) : Prop := a = [] ∧ Equiv s t
+theorem c01 : C01Obligation Rec0 Equiv :=
+  C01Obligation.ofEquiv
+    (fun h hs ht => ⟨h.1, hEquiv_trans (hEquiv_trans (hEquiv_symm hs) h.2) ht⟩)
+    (fun {a s t t'} h he => by
+      obtain ⟨ha, hst⟩ := h
+      subst ha
+      exact ⟨⟨[], rfl⟩, hEquiv_trans he (hEquiv_symm hst), rfl, hEquiv_symm hst⟩)
+def sess : List Op := [.paint 0 [] 0 false, .undo, .redo, .qHasTrack 1 0, .undo, .undo]
+theorem sessValid : SessValid Rec0 Equiv s sess := by
+  refine ⟨.inr (.inr (.inl ⟨rfl, by decide, [], rfl, rfl, ?_⟩)), .inl rfl, .inr (.inl rfl),
+    .inr (.inr (.inr ⟨fun h => (by cases h), fun h => (by cases h), fun h => (by cases h), hEquiv_refl _⟩)),
+    .inl rfl, .inl rfl, trivial⟩
+  exact ⟨fun _ => Iff.rfl, fun _ => Iff.rfl, rfl, fun _ _ => Iff.rfl, fun _ _ => Iff.rfl,
+    ⟨rfl, rfl, rfl, rfl, rfl, rfl, rfl, rfl⟩⟩
+end C02Ex
+
+example := C02_session C02Ex.c01 C02Ex.s rfl C02Ex.sess C02Ex.sessValid
+example : (sessFinal C02Ex.s ⟨[C02Ex.s], 0⟩ C02Ex.sess).2.cur = 0 ∧
+    (sessFinal C02Ex.s ⟨[C02Ex.s], 0⟩ C02Ex.sess).2.states.length = 2 ∧
+    (step (sessFinal C02Ex.s ⟨[C02Ex.s], 0⟩ C02Ex.sess).1 .undo).2 = .bool false := by decide
+#print axioms C02_session
+#print axioms C02_session_step
